@@ -98,22 +98,23 @@ func coqTerm(o Outcome) string {
 }
 
 type desc struct {
-	Outcome string   `json:"outcome"`
-	Site    string   `json:"site,omitempty"`
-	Msg     string   `json:"msg,omitempty"`
-	Frames  []string `json:"frames,omitempty"`
-	Pages   int      `json:"pages"`
-	Rounds  int      `json:"rounds"`
-	Err     string   `json:"err,omitempty"`
-	HTML    string   `json:"html"`
-	UserCSS []string `json:"user_css,omitempty"`
-	Hints   bool     `json:"hints"`
-	Engine  string   `json:"engine"`
-	Doc     *Doc     `json:"doc,omitempty"`    // structured form (replayable: c01 -show / -shrink)
-	Shrunk  *Doc     `json:"shrunk,omitempty"` // minimised failing document
-	ShrunkH string   `json:"shrunk_html,omitempty"`
-	ShrunkU []string `json:"shrunk_user_css,omitempty"`
-	Corpus  string   `json:"corpus,omitempty"`
+	Outcome  string    `json:"outcome"`
+	Site     string    `json:"site,omitempty"`
+	Msg      string    `json:"msg,omitempty"`
+	Frames   []string  `json:"frames,omitempty"`
+	Pages    int       `json:"pages"`
+	Rounds   int       `json:"rounds"`
+	Err      string    `json:"err,omitempty"`
+	HTML     string    `json:"html"`
+	UserCSS  []string  `json:"user_css,omitempty"`
+	Hints    bool      `json:"hints"`
+	Engine   string    `json:"engine"`
+	Doc      *Doc      `json:"doc,omitempty"`    // structured form (replayable: c01 -show / -shrink)
+	Shrunk   *Doc      `json:"shrunk,omitempty"` // minimised failing document
+	ShrunkH  string    `json:"shrunk_html,omitempty"`
+	ShrunkU  []string  `json:"shrunk_user_css,omitempty"`
+	Corpus   string    `json:"corpus,omitempty"`
+	Analysis *Analysis `json:"analysis,omitempty"`
 }
 
 func main() {
@@ -132,6 +133,7 @@ func main() {
 	engineF := flag.String("engine", "pango", "text engine for -html")
 	hintsF := flag.Bool("hints", false, "presentational hints for -html")
 	corpusDir := flag.String("corpus", "/verif/corpus/C01", "regression corpus directory")
+	confirmMs := flag.Int("confirm-ms", 40000, "second, longer watchdog for documents that exceeded the first one")
 	maxShrink := flag.Int("shrink-calls", 120, "render budget per shrunk failing case in the stream")
 	flag.Parse()
 
@@ -230,6 +232,37 @@ func main() {
 	}
 	res := pool.RunAll(docs)
 
+	// a watchdog expiry is re-examined with a longer budget: a document that
+	// returns within it is slow, not hanging (observable Ok, tag "slow")
+	slowMs := make([]int, len(items))
+	{
+		var wg sync.WaitGroup
+		for i := range items {
+			if res[i].Status != "hang" {
+				continue
+			}
+			wg.Add(1)
+			go func(i int) {
+				defer wg.Done()
+				o := pool.RunT(docs[i], *confirmMs)
+				if o.Status != "hang" {
+					slowMs[i] = o.Ms
+					if slowMs[i] == 0 {
+						slowMs[i] = 1
+					}
+					if *triage {
+						b, _ := json.Marshal(corpusFile{Comment: fmt.Sprintf("slow %d ms, first attempt: %s", o.Ms, res[i].Site), Doc: docs[i]})
+						os.MkdirAll("/verif/.work/b-c01/triage", 0o755)
+						os.WriteFile(fmt.Sprintf("/verif/.work/b-c01/triage/slow_%d.json", i), b, 0o644)
+						fmt.Printf("slow: doc %d took %d ms (%s) -> %s\n", i, o.Ms, res[i].Site, o.Status)
+					}
+					res[i] = o
+				}
+			}(i)
+		}
+		wg.Wait()
+	}
+
 	// shrink failing cases (in parallel, bounded) to compute the trigger tags
 	shrunk := make([]*Doc, len(items))
 	var wg sync.WaitGroup
@@ -245,15 +278,13 @@ func main() {
 		wg.Add(1)
 		go func(i int) {
 			defer wg.Done()
+			// hangs are not shrunk automatically (a shorter watchdog would turn the
+			// criterion into "slow"): their trigger tags come from the structural analysis
+			if res[i].Status == "hang" {
+				return
+			}
 			ms := 0
 			budget := *maxShrink
-			if res[i].Status == "hang" {
-				ms = 2500
-				budget = 25
-				if o := pool.RunT(docs[i], ms); !sameFailure(o, res[i]) {
-					return
-				}
-			}
 			shrunk[i], _ = Shrink(docs[i], res[i], func(x *Doc) Outcome { return pool.RunT(x, ms) }, budget)
 		}(i)
 	}
@@ -300,7 +331,7 @@ func main() {
 			for _, u := range d.UserCSS() {
 				fmt.Printf("  user: %s\n", truncate(u, 600))
 			}
-			fmt.Printf("  hints=%v engine=%s testua=%v file=%s.json\n", d.Hints, d.Engine, d.TestUA, name)
+			fmt.Printf("  hints=%v engine=%s testua=%v file=%s.json\n  analysis(original)=%+v tags=%v\n", d.Hints, d.Engine, d.TestUA, name, pool.Analyze(docs[g.first]), pool.Analyze(docs[g.first]).Tags())
 		}
 		return
 	}
@@ -316,6 +347,9 @@ func main() {
 		tags = append(tags, "outcome="+o.Status)
 		if o.Err != "" {
 			tags = append(tags, "returned-error")
+		}
+		if slowMs[i] > 0 {
+			tags = append(tags, "slow")
 		}
 		if o.Rounds > 1 {
 			tags = append(tags, fmt.Sprintf("rounds=%d", o.Rounds))
@@ -346,6 +380,11 @@ func main() {
 			for _, t := range src.Features(true) {
 				tags = append(tags, "t:"+t)
 			}
+			an := pool.Analyze(src)
+			for _, t := range an.Tags() {
+				tags = append(tags, "t:"+t)
+			}
+			ds.Analysis = &an
 		}
 		w.Add(vlib.Case{Kind: it.kind, Coq: coqTerm(o), Desc: ds, Tags: tags,
 			Nontrivial: it.doc.Size() > 3, Key: ds.HTML + "\x00" + strings.Join(ds.UserCSS, "\x00") + fmt.Sprint(ds.Hints, ds.Engine)})
